@@ -6,7 +6,8 @@ so that an edit of
 
 * `downsample_neuron`: the guard `downsampling_factor <= 1`, the copy unless `inplace`, the dispatch on the neuron type
   and the arguments forwarded to `_downsample_treeneuron`;
-* `_downsample_treeneuron`: the `shape[0] <= 1` early return, which column pair the parent map is built from and its
+* `_downsample_treeneuron`: the `shape[0] <= 1` early return, the rounding of a finite factor
+  (`int(np.floor(factor))`, `inf` left alone, before the walk), which column pair the parent map is built from and its
   sentinel `[-1] = -1`, which node types are fix points (`type != 'slab'`), that preserved nodes are OR-ed in by
   `node_id.isin`, that the soma ids are appended to the fix points and that the container the walk *tests membership
   in* and the container it *starts from* are defined after that append (data flow, not names), the walk itself
@@ -206,6 +207,29 @@ def downsample_facts(tree):
               and 'shape' in _attrs(n.test.left) and _returns(n.body)], '_downsample_treeneuron: small-table guard')
     F['smallGuardCmp'], F['smallGuardK'] = _op(g.test.ops[0]), _const(g.test.comparators[0])
     F['smallGuardAxis'] = _const(g.test.left.slice) if isinstance(g.test.left, ast.Subscript) else None
+    # rounding of the factor before the walk: `if not np.isinf(f): f = int(np.floor(f))`
+    F['factorRound'], F['factorRoundSkipsInf'], rnd_line = 'none', False, None
+    for st in fn.body:
+        guard, asg = None, None
+        if isinstance(st, ast.If) and not st.orelse:
+            cand_ = [a for a in st.body if isinstance(a, ast.Assign) and isinstance(a.targets[0], ast.Name) and a.targets[0].id == FAC]
+            if len(cand_) == 1 and len(st.body) == 1:
+                guard, asg = st.test, cand_[0]
+        elif isinstance(st, ast.Assign) and isinstance(st.targets[0], ast.Name) and st.targets[0].id == FAC:
+            asg = st
+        if asg is None:
+            continue
+        if rnd_line is not None:
+            raise ValueError('_downsample_treeneuron: the factor is re-assigned more than once')
+        fns = [c.func.attr if isinstance(c.func, ast.Attribute) else getattr(c.func, 'id', '?') for c in ast.walk(asg.value) if isinstance(c, ast.Call)]
+        if FAC not in _names(asg.value):
+            raise ValueError('_downsample_treeneuron: the factor is overwritten by an unrelated value')
+        kinds = [k for k in ('floor', 'ceil', 'round', 'rint', 'trunc') if k in fns]
+        F['factorRound'] = kinds[0] if len(kinds) == 1 else ('trunc' if (not kinds and fns == ['int']) else 'other')
+        if guard is not None:
+            g = ast.unparse(guard).replace(FAC, 'F')
+            F['factorRoundSkipsInf'] = g in ('not np.isinf(F)', 'np.isfinite(F)', "F != float('inf')", 'F != np.inf', 'not math.isinf(F)', 'math.isfinite(F)')
+        rnd_line = st.lineno
     # parent map: {n: p for n, p in zip(<X>.nodes.<a>.values, <X>.nodes.<b>.values)}
     pm = None
     for st in fn.body:
@@ -366,6 +390,7 @@ def downsample_facts(tree):
     F['stopSetFromFix'] = STOPSET == FIX0 or any(STOPSET in _assign_target_names(st) and FIX0 in _names(getattr(st, 'value', st)) for st in fn.body)
     F['startsFromFix'] = START == FIX0 or any(START in _assign_target_names(st) and FIX0 in _names(getattr(st, 'value', st)) for st in fn.body)
 
+    F['factorRoundBeforeWalk'] = rnd_line is None or rnd_line < W.lineno
     # rows kept / new parents
     keep = [c for st in fn.body if st.lineno > _end(W) for c in _calls(st, 'isin') if NEWP in _names(c)]
     k = _one(keep, '_downsample_treeneuron: kept rows')
@@ -674,6 +699,10 @@ def generate(repo: Path):
     L.append(f'def smallGuardCmp : String := {lstr(D["smallGuardCmp"])}')
     L.append(f'def smallGuardK : Int := {lint(D["smallGuardK"])}')
     L.append(f'def smallGuardAxis : Int := {lint(D["smallGuardAxis"])}')
+    L.append('/-- `if not np.isinf(factor): factor = int(np.<round>(factor))` before the walk ("none" when the factor is used as given) -/')
+    L.append(f'def factorRound : String := {lstr(D["factorRound"])}')
+    L.append(f'def factorRoundSkipsInf : Bool := {lbool(D["factorRoundSkipsInf"])}')
+    L.append(f'def factorRoundBeforeWalk : Bool := {lbool(D["factorRoundBeforeWalk"])}')
     L.append('/-- parent map `{n: p for n, p in zip(nodes.<key>, nodes.<value>)}`, sentinel `[<k>] = <v>` -/')
     L.append(f'def parentMapKey : String := {lstr(D["parentMapKey"])}')
     L.append(f'def parentMapValue : String := {lstr(D["parentMapValue"])}')
